@@ -703,12 +703,48 @@ def r3_population_columns(ctx) -> None:
             'before an objective the dominance rank is computed on the wrong columns', construct='population-columns', func=ci.qualname)
 
 
+def pathcond_sub(env, e):
+  from vzstatic import pathcond
+  import copy as _copy
+  return pathcond._Sub(env).visit(_copy.deepcopy(e))
+
+
 def r3_nsga2(ctx) -> None:
   fi = ctx.index.need_func('vizier._src.algorithms.evolution.nsga2._pareto_rank')
   comp = None
   for n in ast.walk(fi.node):
     if isinstance(n, ast.ListComp):
       comp = n
+  loop_form = None
+  if comp is None:
+    # loop form: `for j in range(n): L.append(PRED(ys, ys[j]))` - the element is unfolded through the loop's locals
+    for lp in (x for x in ast.walk(fi.node) if isinstance(x, ast.For) and isinstance(x.target, ast.Name)):
+      apps = [st for st in lp.body if isinstance(st, ast.Expr) and isinstance(st.value, ast.Call) and isinstance(st.value.func, ast.Attribute)
+              and st.value.func.attr == 'append' and len(st.value.args) == 1]
+      if len(apps) == 1:
+        env_ = {}
+        for st in lp.body:
+          if isinstance(st, ast.Assign) and len(st.targets) == 1 and isinstance(st.targets[0], ast.Name):
+            env_[st.targets[0].id] = pathcond_sub(env_, st.value)
+        loop_form = (lp, pathcond_sub(env_, apps[0].value.args[0]))
+  if loop_form is not None:
+    lp, elt = loop_form
+    jv = lp.target.id
+    axis = None
+    for n in ast.walk(fi.node):
+      if isinstance(n, ast.Call) and (dotted(n.func) or '').endswith('.sum'):
+        for k in n.keywords:
+          if k.arg == 'axis' and isinstance(k.value, ast.Constant):
+            axis = k.value.value
+    arr = fi.params[0]
+
+    def role_l(x):
+      t = unparse(x, 0)
+      return 'B' if t == f'{arr}[{jv}]' else 'A' if t == arr else None
+    pred = parse_pred(elt, role_l, {})
+    _report(ctx, 'nsga2._pareto_rank', elt, fi, pred, 'dominated', extra_ok=axis == 0,
+            why_extra='rank is not the count over the dominating points (sum over axis 0)')
+    return
   if comp is None:
     if difference_compares(fi.node):
       ctx.bad('R3', 'nsga2._pareto_rank', fi.node,
